@@ -24,10 +24,10 @@ def run(ctx):
 
 MANIFEST = {
     'engine': 'kani + mirx',
-    'technique': 'Kani/CBMC (SAT): every decoder on an arbitrary byte array of symbolic length, panic-freedom as the assertion; mirx symbolic execution of the real Udp::demux / Ipv4::demux / DhcpClient::demux / DhcpServer::demux on arbitrary bytes (drop at layer)',
+    'technique': 'Kani/CBMC (SAT): every decoder on an arbitrary byte array of symbolic length, panic-freedom as the assertion; mirx symbolic execution of the real Udp::demux / Ipv4::demux / Tcp::demux / Arp::demux / DhcpClient::demux / DhcpServer::demux on arbitrary bytes (drop at layer)',
     'level_text': 'Every byte string up to the stated length (all truncations, all field mutations, extreme length fields are particular values of the '
                   'arbitrary array) is shown by SAT to produce Ok or an Err value - never a panic, overflow, index or unwrap failure - in the six packet decoders.',
     'level_note': 'Decided: the six packet decoders (Kani) and drop-at-layer for the synchronous Udp::demux and Ipv4::demux (mirx: arbitrary bytes => an error is returned, nothing is '
-                  'delivered, no binding changes, no panic; a frame is delivered only if its header is well-formed) and for DhcpClient::demux / DhcpServer::demux on payloads too short to decode (an error, no panic). NOT covered: DHCP payloads of 32 bytes or more at the application layer, the NDL text parser (nom combinators, HashMap/RandomState, '
-                  'format!, file I/O - neither Kani nor the MIR executor can encode it), TCP/ARP demux (async environment) and "the simulation keeps running". Trusts Kani/CBMC, mirx, z3.',
+                  'delivered, no binding changes, no panic; a frame is delivered only if its header is well-formed), for Tcp::demux without session or listener (refused with an error, a reset only for a header that decodes), for Arp::demux (the ARP table changes only for a packet that decodes) and for DhcpClient::demux / DhcpServer::demux on payloads too short to decode (an error, no panic). NOT covered: DHCP payloads of 32 bytes or more at the application layer, the NDL text parser (nom combinators, HashMap/RandomState, '
+                  'format!, file I/O - neither Kani nor the MIR executor can encode it), Tcp::demux with a listener or session and Arp::demux replying to a request (async environment) and "the simulation keeps running". Trusts Kani/CBMC, mirx, z3.',
 }
